@@ -36,7 +36,7 @@ def accuflux(idxs_ds, seq, data, nodata):
     accu = data.copy()
     for idx0 in seq[::-1]:  # up- to downstream
         idx_ds = idxs_ds[idx0]
-        if idx0 != idx_ds and accu[idx_ds] != nodata and accu[idx0] != nodata:
+        if idx0 != idx_ds and data[idx_ds] != nodata and data[idx0] != nodata:
             accu[idx_ds] += accu[idx0]
     return accu
 
@@ -65,7 +65,7 @@ def accuflux_ds(idxs_ds, seq, data, nodata):
     accu = data.copy()
     for idx0 in seq:  # down- to upstream
         idx_ds = idxs_ds[idx0]
-        if idx0 != idx_ds and accu[idx_ds] != nodata and accu[idx0] != nodata:
+        if idx0 != idx_ds and data[idx_ds] != nodata and data[idx0] != nodata:
             accu[idx0] += accu[idx_ds]
     return accu
 
